@@ -107,6 +107,9 @@ def eligible(func, decorators):
         return False
     if _defines_closures(func):
         return False
+    outer = lexical_parent(func)
+    if outer is not None and isinstance(outer, FUNC_TYPES) and getattr(outer, "_class", None) is not None and outer.args.args and outer.args.args[0].arg in free_names(func):
+        return False   # (a generator nested in a method that uses the method's `self`: attribute paths of self are resolved in the method's own frames)
     for n in ast.walk(func):
         if isinstance(n, (ast.Global, ast.Nonlocal)):
             return False
